@@ -39,12 +39,12 @@ CLAIMS['C04'] = dict(
    ref='DESIGN.md §2 C04')
 CLAIMS['C10'] = dict(
    technique='borrowed-value ownership (E-own) and reader-value lifetime (use-after-next-Read) analyses on SSA, backward-slice dependence of the group key, stub detection',
-   text='Decides structural conditions behind memory-limit independence of aggregation and join, for all paths: (W1) no agg.Function Consume/ConsumeAsPartial (22 methods) nor groupby.Aggregator.Consume retains its argument, keys or anything derived without a copy; (K1) the string indexing the group table depends on both the flattened key bytes and keyTypes.Lookup(types); (W3) in join, groupby, spill, fuse, sort, merge and zio a value obtained from Read/Peek is neither used after the next Read on the same reader nor allowed to escape without a copy (loop-carried values included); (S3) spill.peeker.read copies nextRecord before advancing the file; (P1) no partial form is a panicking stub. Does not decide the aggregates\' arithmetic, partial composition, early release on sorted input or join semantics.',
+   text='Decides structural conditions behind memory-limit independence of aggregation and join, for all paths: (W1) no agg.Function Consume/ConsumeAsPartial (22 methods) nor groupby.Aggregator.Consume retains its argument, keys or anything derived without a copy; (K1) the string indexing the group table depends on both the flattened key bytes and keyTypes.Lookup(types); (W3) in join, groupby, spill, fuse, sort, merge and zio a value obtained from Read/Peek is neither used after the next Read on the same reader nor allowed to escape without a copy (loop-carried values included); (S3) spill.peeker.read copies nextRecord before advancing the file; (P1) no partial form is a panicking stub; (P2) state that a ConsumeAsPartial loop rebinds per element is initialised inside the loop. Does not decide the aggregates\' arithmetic, partial composition, early release on sorted input or join semantics.',
    note='zio.Reader contract (value valid until the next Read on the same reader); reader identity by receiver expression; calls leaving the package do not retain arguments.',
    ref='DESIGN.md §2 C10')
 CLAIMS['C12'] = dict(
    technique='who-may-call tables over resolved call sites, lock-state dataflow, critical-section atomicity, dominance / avoid-reachability protocol checks, backward-slice provenance of commit ids',
-   text='Decides, for all paths, the protocol conditions that linearizability of lake metadata updates rests on: (W1) the journal entry at+1 is the only commit point and the sets of writers of PutIfNotExists, CommitAt and journal entry objects are closed; (P1) in journal.Store.commit the position and the constraint are read in one read-locked section, every attempt re-loads first, a lost race (os.IsExist) leads to another attempt or an error but never to a nil return, and success invalidates the cached position; (P2) Branch.commit performs tip lookup -> constructor -> commit object -> branch update, with a constraint comparing against the parent captured before config.Commit is overwritten and removal of the commit object on every failure path; (P3) every constructor passed to Branch.commit builds snapshots, paths, patches and the new parent from the retry\'s parent, never from the handle\'s stale Commit; (L1) journal.Store lock discipline; (N1) names registered last with cleanup. Does not decide linearizability itself, non-atomic file puts, or inter-process cache coherence.',
+   text='Decides, for all paths, the protocol conditions that linearizability of lake metadata updates rests on: (W1) the journal entry at+1 is the only commit point and the sets of writers of PutIfNotExists, CommitAt and journal entry objects are closed; (P1) in journal.Store.commit the position and the constraint are read in one read-locked section, every attempt re-loads first, a lost race (os.IsExist) leads to another attempt or an error but never to a nil return, and success invalidates the cached position; (P2) Branch.commit performs tip lookup -> constructor -> commit object -> branch update, with a constraint comparing against the parent captured before config.Commit is overwritten and removal of the commit object on every failure path; (P3) every constructor passed to Branch.commit builds snapshots, paths, patches and the new parent from the retry\'s parent, never from the handle\'s stale Commit; (P4) the constraint key handed to CommitAt is compared before the entry is written; (P5) the position an entry is written at derives from the HEAD read and never from a probe for existing entries; (L1) journal.Store lock discipline; (N1) names registered last with cleanup. Does not decide linearizability itself, non-atomic file puts, or inter-process cache coherence.',
    note='PutIfNotExists is atomic where supported; closures run under the lock state of the call that invokes them.',
    ref='DESIGN.md §2 C12')
 CLAIMS['C13'] = dict(
@@ -54,22 +54,22 @@ CLAIMS['C13'] = dict(
    ref='DESIGN.md §2 C13')
 CLAIMS['C14'] = dict(
    technique='edge-dominance guards, constant-argument checks, error-flow dominance of commits by writer Close, resolved-callee stable-sort check',
-   text='Decides structural conditions of the loaded-minus-deleted model: (V1) Vacuumable offers an object only on the false edge of Exists() on the snapshot of the requested commit; (N1) comparators on the lake path are built with nullsMax=true; (D1) no store to Deleter.KeyPruner; (O1) every commit is reached only after each writer Close / CreateVector returned nil, including calls in loops and inside constructors; (S1) the lister\'s object sort and the comparator\'s index sort are stable. Does not decide multiset equality, scan order or metadata accuracy.',
+   text='Decides structural conditions of the loaded-minus-deleted model: (V1) Vacuumable offers an object only on the false edge of Exists() on the snapshot of the requested commit; (N1) comparators on the lake path are built with nullsMax=true; (D1) no store to Deleter.KeyPruner; (O1) every commit is reached only after each writer Close / CreateVector returned nil, including calls in loops and inside constructors; (S1) the lister\'s object sort and the comparator\'s index sort are stable; (S2) the Slicer folds min and max over every object of a partition; (W1) the deleter writes the complement of the predicate. Does not decide multiset equality, scan order or metadata accuracy.',
    note='Shares rules with C16 and C17 (decided once).',
    ref='DESIGN.md §2 C14')
 CLAIMS['C15'] = dict(
    technique='field read/write-set agreement between view and mutator methods of a type, provenance of commit ids, error-flow dominance',
-   text='Decides structural conditions of merge/revert: (K1) each view method of commits.Patch reads every state field the corresponding mutators write, computed from the current method bodies and their same-type helpers; (P3) merge and revert objects are built from the retry\'s parent; (E1) errors of Diff / PatchOfPath / Patch.Revert are returned before a commit object can be produced, and the object is written before the branch moves. The K1 violation found on the original tree (views ignored deletedObjects: double-delete merge corrupts the parent) was reproduced and fixed. Does not decide the set algebra of merge and revert.',
+   text='Decides structural conditions of merge/revert: (K1) each view method of commits.Patch reads every state field the corresponding mutators write, computed from the current method bodies and their same-type helpers; (P3) merge and revert objects are built from the retry\'s parent and never from a patch, snapshot or diff captured outside the retry constructor; (E1) errors of Diff / PatchOfPath / Patch.Revert are returned before a commit object can be produced, and the object is written before the branch moves. The K1 violation found on the original tree (views ignored deletedObjects: double-delete merge corrupts the parent) was reproduced and fixed. Does not decide the set algebra of merge and revert.',
    note='Field sets are computed over Patch methods and their same-type helpers.',
    ref='DESIGN.md §2 C15')
 CLAIMS['C17'] = dict(
    technique='must-precede / must-pass-through (dominance and avoid-reachability) on resolved call sites, error-flow dominance, who-may-call',
-   text='Decides the order in which durable effects are issued, for all paths: commit object before branch pointer (O1); data objects and vectors durable before the commit that references them (O2); journal entry before HEAD, with HEAD written only by CommitAt and Create (O3); lake magic last and only after the pools store, HEAD before TAIL (O4); pool directory before name with cleanup, name before data on drop (O5); HEAD treated as a hint (H1 — violated on today\'s tree: genuine known finding, reproduced). Does not decide what a reopened lake sees after a torn non-atomic put, i.e. crash states themselves.',
+   text='Decides the order in which durable effects are issued, for all paths: commit object before branch pointer (O1); data objects and vectors durable before the commit that references them (O2); journal entry before HEAD, with HEAD written only by CommitAt and Create (O3); lake magic last and only after the pools store, HEAD before TAIL (O4); pool directory before name with cleanup, name before data on drop (O5); CreateVector always rewrites the vector object instead of trusting an existing one (O6); HEAD treated as a hint (H1 — violated on today\'s tree: genuine known finding, reproduced). Does not decide what a reopened lake sees after a torn non-atomic put, i.e. crash states themselves.',
    note='Program order of storage calls equals durability order.',
    ref='DESIGN.md §2 C17')
 CLAIMS['C19'] = dict(
    technique='error-flow analysis with must-report-before-return on failing branches, must-pass-through on the control-message writer, type-table agreement between server writer, client unmarshaler and client scanner, stub detection behind a shared interface',
-   text='Decides structural conditions of service/direct agreement: (E1) in all 22 HTTP handlers no error result is dropped and, on every branch where an error is non-nil, every path to a return first reports to the client (w.Error, WriteError, the handler\'s handleError closure or an explicit status); (E2) every path through queryio.Writer.WriteControl writes to the response — violated on today\'s tree for responses without control frames (genuine, reproduced, recorded as a known finding); (K1) every api.Query* message the server writes is bound in the client\'s unmarshaler and handled in the client scanner, and QueryError becomes a returned error; (K2) every lake/api.Interface method of the remote implementation issues a request (the RemoveBranch stub was fixed). Does not decide equality of lake state or output between the two access paths.',
+   text='Decides structural conditions of service/direct agreement: (E1) in all 22 HTTP handlers no error result is dropped and, on every branch where an error is non-nil, every path to a return first reports to the client (w.Error, WriteError, the handler\'s handleError closure or an explicit status); (E2) every path through queryio.Writer.WriteControl writes to the response — violated on today\'s tree for responses without control frames (genuine, reproduced, recorded as a known finding); (E3) the load request body is a pipe closed with the error of the copy (CloseWithError) and never owned by the ZNG writer, so a failing source cannot end the body cleanly; (K1) every api.Query* message the server writes is bound in the client\'s unmarshaler and handled in the client scanner, and QueryError becomes a returned error; (K2) every lake/api.Interface method of the remote implementation issues a request (the RemoveBranch stub was fixed). Does not decide equality of lake state or output between the two access paths.',
    note='Helpers that take the ResponseWriter report their own errors; deferred cleanup calls are not obligations.',
    ref='DESIGN.md §2 C19')
 CLAIMS['C06'] = dict(
@@ -79,12 +79,12 @@ CLAIMS['C06'] = dict(
    ref='DESIGN.md §2 C06')
 CLAIMS['C07'] = dict(
    technique='AST/type-switch analysis with computed case sets against confirmed operator tables, SSA backward slices for per-leg copies and operand order, avoid-reachability for flag pairing',
-   text='Decides structural necessary conditions of optimizer soundness: (D1) the default arms of the demand inference over dag.Op and dag.Expr yield demand.All() and the default arm of analyzeSortKeys yields unknown order, so an unlisted or new operator is treated conservatively; (D2) every op placed into parallel paths is a copyOp/copyOps made inside the per-leg loop; (D3) PartialsOut on the legs and PartialsIn on the tail are set on the same paths and guarded against re-splitting; (D4) mergeFilters builds and(first, second); (D5) the operators that pass the sort key through, that end a concurrent path, and that are lifted into legs are exactly the confirmed tables. Does not decide semantic equivalence of the optimized and the analyzed plan, which is a relation between two executions.',
+   text='Decides structural necessary conditions of optimizer soundness: (D1) the default arms of the demand inference over dag.Op and dag.Expr yield demand.All() and the default arm of analyzeSortKeys yields unknown order, so an unlisted or new operator is treated conservatively; (D2) every op placed into parallel paths is a copyOp/copyOps made inside the per-leg loop; (D3) PartialsOut on the legs and PartialsIn on the tail are set on the same paths and guarded against re-splitting; (D4) mergeFilters builds and(first, second); (D5) the operators that pass the sort key through, that end a concurrent path, and that are lifted into legs are exactly the confirmed tables; (D6) Summarize.InputSortDir and isKeyOfSummarize agree that input order is usable only when a grouping key is assigned to the sort-key name and computed by the key or an order-preserving call; (D7) every narrowing case of the demand inference selects every expression-bearing field of its node and a pass-through operator hands the downstream demand upstream; (D8) a predicate taken off the chain by matchFilter is stored into the scan Filter before the shortened chain is used. Does not decide semantic equivalence of the optimized and the analyzed plan, which is a relation between two executions.',
    note='Operator tables confirmed by reading; changing them deliberately requires re-confirmation (the check then reports the changed entry).',
    ref='DESIGN.md §2 C07')
 CLAIMS['C08'] = dict(
    technique='lock-state dataflow on the shared lister/slicer, SSA provenance of the merge key, shared optimizer rules',
-   text='Decides structural conditions of parallelism independence: (L1/L2/L4) meta.Lister and meta.Slicer state shared by all scatter legs is only touched under their mutex, helpers are requires-held; (D2/D3/D5) legs get copies, partials are paired, and the confirmed sets of operators end a concurrent path or are lifted into legs; (M1) the Merge built by parallelizeSeqScan is keyed on the sort key concurrentPath reports for this path, under needMerge, and Combine is used only when no order is needed. Does not decide equality of results across degrees of parallelism or correctness of partial aggregates.',
+   text='Decides structural conditions of parallelism independence: (L1/L2/L4) meta.Lister and meta.Slicer state shared by all scatter legs is only touched under their mutex, helpers are requires-held; (D2/D3/D5) legs get copies, partials are paired, and the confirmed sets of operators end a concurrent path or are lifted into legs; (M1) the Merge built by parallelizeSeqScan is keyed on the sort key concurrentPath reports for this path, under needMerge, and Combine is used only when no order is needed; (L3) the Slicer pulls from its shared parent and stashes the result in one critical section. Does not decide equality of results across degrees of parallelism or correctness of partial aggregates.',
    note='Shares D2/D3/D5 with C07 (decided by the same code).',
    ref='DESIGN.md §2 C08')
 CLAIMS['C09'] = dict(
